@@ -19,6 +19,7 @@ import itertools
 import json
 import os
 import threading
+import weakref
 
 from common import blit, llit, zlit, VERIF
 
@@ -201,13 +202,17 @@ class Sched(object):
         self.open_files[tid].add(id(f))
         # oracle: is everybody else away from this lock?
         quiet = not self.inside and all(self.att[q] is None for q in range(self.m) if q != tid)
-        self.att[tid] = {'removes0': self.removes, 'undisturbed': True, 'quiet': quiet, 'file': f, 'slot': k}
+        # NB: only a weak reference - a strong one held by the scheduler would move the reference-count close of a
+        # dropped LockFile out of the contender's thread (and out of the schedule)
+        self.att[tid] = {'removes0': self.removes, 'undisturbed': True, 'quiet': quiet, 'file': weakref.ref(f),
+                         'ino': iid, 'fid': id(f), 'slot': k}
         return f
 
     def file_of_fd(self, tid, fd):
         a = self.att[tid]
-        if a is not None and not a['file'].is_closed and a['file'].fileno() == fd:
-            return a['file']
+        f = a['file']() if a is not None else None
+        if f is not None and not f.is_closed and f.fileno() == fd:
+            return f
         return None
 
     def w_flock(self, fd, flags):
@@ -256,7 +261,7 @@ class Sched(object):
         a = self.att[tid]
         if a is None:
             return
-        if iid != a['file'].ino_id:
+        if iid != a['ino']:
             a['failed'] = True
             if self.removes == a['removes0']:
                 self.oracle_fail.append(('attempt-failed-on-free-lock',
@@ -273,7 +278,7 @@ class Sched(object):
         entry['res'] = ('close',)
         self.open_files[tid].discard(id(f))
         a = self.att[tid]
-        if a is not None and a['file'] is f:
+        if a is not None and a['fid'] == id(f):
             # the file of the running attempt is closed: the attempt failed (or, for a lock that was taken, unlock)
             self.att[tid] = None
 
